@@ -108,11 +108,20 @@ DevData == /\ Is("d2h") /\ E.kind = "data" /\ dev = "datain" /\ E.chunk = gotC +
            /\ gotC' = gotC + 1 /\ faulted' = (faulted \/ Hit)
            /\ dev' = After(IF gotC + 1 = cur.chunks THEN "final" ELSE "datain")
            /\ Strict /\ UNCHANGED <<call, cur, sentB, sentP, viol, done, cmds>> /\ Adv
+\* the DEVICE aborts its own data phase: a data packet of length zero (the host acknowledges it on the serial link like every frame), then the final
+\* response that carries the reason.  Not a fault of the link: the call cannot succeed, but it must end regularly and report the device's status.
+DevAbort == /\ Is("d2h") /\ E.kind = "abort" /\ dev = "datain"
+            /\ faulted' = TRUE /\ dev' = After("final")
+            /\ Strict /\ UNCHANGED <<call, cur, sentB, sentP, gotC, viol, done, cmds>> /\ Adv
 DevFinal == /\ Is("d2h") /\ E.kind = "resp" /\ dev = "final" /\ E.final
             /\ (Hit \/ E.status = E.devStatus)
             /\ faulted' = (faulted \/ Hit) /\ dev' = After("idle")
             /\ done' = (IF E.devStatus = 0 /\ ~Kills(E.fault) THEN Append(done, cur.tag) ELSE done)
             /\ Strict /\ UNCHANGED <<call, cur, sentB, sentP, gotC, viol, cmds>> /\ Adv
+\* ---------------------------------------------------------------- device-initiated abort, seen from the result
+Since == CHOOSE i \in 1..l : T[i].ev = "call" /\ \A j \in (i + 1)..l : T[j].ev # "call"
+DevAborted == \E i \in Since..l : T[i].ev = "d2h" /\ T[i].kind = "abort"
+LinkIntact == \A i \in Since..l : T[i].ev = "d2h" => T[i].fault \in {"none", "err"}
 \* ---------------------------------------------------------------- the API contract
 Succ == E.kind = "ret" /\ E.val \in {"ok", "data", "values"} /\ E.status = 0
 MaxReads == 3000
@@ -132,11 +141,13 @@ Result ==
               /\ (call.shape = "value" => E.valuesExact))                            \*   values are the device's
   /\ (E.kind = "ret" /\ call.shape \in {"in", "outin"} /\ E.val = "data" /\ ~(E.dataExact /\ E.dataLen = (IF call.shape = "outin" THEN call.len2 ELSE call.len)) => E.status # 0)   \* partial data only with a failure status
   /\ (call.op = "load_image" /\ E.kind = "ret" /\ E.val = "ok" => E.devGotExact /\ E.devBytes = call.len)
+  /\ (DevAborted /\ LinkIntact => /\ dev = "idle" /\ E.kind = "ret" /\ ~Succ               \* AbortReported: the exchange is completed (every frame acknowledged,
+                                  /\ \E i \in Since..l : T[i].ev = "d2h" /\ T[i].kind = "resp" /\ T[i].final /\ E.status = T[i].devStatus)   \* the final response read) and the device's reason is the status of the call
   /\ (strict => ~Succ)                                                              \* StrictFaults: NAK / abort / truncated / missing frame end the call in failure
   /\ LET exp == IF call.via = "cli" THEN CliCmds(call.cli) ELSE Cmds(call.op, call.args, call.dl, call.db) IN   \* a blhost command line means its operation (MbootCli)                        \* AsRequested: the device saw exactly the commands the operation stands for,
      IF faulted \/ dev = "dead" THEN IsPrefix(cmds, exp) ELSE cmds = exp             \*   with the parameters given (under a fault: no other command than those)
   /\ call' = [op |-> "none"] /\ UNCHANGED <<dev, cur, faulted, sentB, sentP, gotC, viol, done, cmds, strict>> /\ Adv
-Next == Call \/ HostCmd \/ HostData \/ HostRaw \/ HostAck \/ DevAck \/ DevResp0 \/ DevData \/ DevFinal \/ Result
+Next == Call \/ HostCmd \/ HostData \/ HostRaw \/ HostAck \/ DevAck \/ DevResp0 \/ DevData \/ DevAbort \/ DevFinal \/ Result
 Constr == IF TLCGet(tid) < l THEN TLCSet(tid, l) ELSE TRUE
 Post == \A i \in 1..Len(Traces) : \/ TLCGet(i) - 1 = Len(Traces[i].ev)
           \/ PrintT(<<"REJ", Traces[i].id, TLCGet(i) - 1, Len(Traces[i].ev), Traces[i].ev[IF TLCGet(i) <= Len(Traces[i].ev) THEN TLCGet(i) ELSE Len(Traces[i].ev)].ev>>)
